@@ -20,6 +20,7 @@ NA = {
 
 # engine -> (kind text)
 ENGINES = {
+ "promsim": (["C18"], "token scheduler over simgen-instrumented exporters/prometheus and sdk/metric with the real client_golang registry; Gather worker goroutines adopted by the scheduler"),
  "otlpretry": (["C14"], "six real OTLP exporters against a scripted collector over an in-memory transport inside the bubble (real net/http and gRPC stacks on fake time); reference retry-policy oracle"),
  "globalsim": (["C16"], "token scheduler over simgen-instrumented otel + internal/global with the real SDK installed as delegate; shadow-lock cycle detection"),
  "lifecycle": (["C15"], "token scheduler over simgen-instrumented sdk/trace, sdk/metric, sdk/log providers with stock processors/readers/exporters behind thin counting wrappers"),
@@ -30,6 +31,10 @@ ENGINES = {
 }
 
 CHECKS = {
+ "C18": dict(engine="promsim",
+   text="schedule-dependent clauses of C18: seeded search over interleavings of measurements on counters, up-down counters, gauges and histograms (names from a fixed edge-case list, exporter options swarm-drawn, instruments and scopes appearing between scrapes) with concurrent Registry.Gather calls through the real client_golang registry; oracle: no panic in any task or Gather worker, Gather returns no error, every scraped value within its may/must window by bit-decoding and non-decreasing per scraper, histogram count and buckets consistent, one series per instrument, target/scope info as configured, exact totals at quiescence, no exporter error for valid instruments",
+   ref="DESIGN.md §3 C18",
+   note="the name-translation and label-sanitisation clauses over all names/units/options are a pure function of the instrument description and are NOT decided by this check (only a fixed list of 24 edge-case names is exercised, which is how the 'total' panic was found)"),
  "C14": dict(engine="otlpretry",
    text="seeded search over collector response sequences (every HTTP status of the table with and without Retry-After, every gRPC code with and without RetryInfo, partial successes, slow responses, temporary dial errors), retry configurations (disabled, zero/short/long elapsed limits), exporter and context timeouts and Shutdown instants, for each of the six OTLP exporters talking to a real in-bubble net/http or gRPC server on exact simulated time; reference-policy oracle over the collector's attempt log: retry only after retryable outcomes, identical payloads, server-supplied delay honoured, stop at first success / non-retryable outcome and report it, no attempt after the deadline or after Shutdown returned, bounded return time, give up only when the budget requires it, partial success reported to the error handler",
    ref="DESIGN.md §3 C14",
@@ -68,7 +73,7 @@ CHECKS = {
    note="sequentially consistent interleavings of instrumented sdk/log code; the exporter is a stub; sampling, not enumeration; known findings C06-K1/K2 are reported as KNOWN-FINDING"),
 }
 
-PENDING = ["C02","C08","C10","C12","C14","C15","C16","C18"]
+PENDING = []
 
 m = {
  "version": 1,
